@@ -135,6 +135,46 @@ def handle (cmd : String) (args : List String) : Option String :=
       | .ok g =>
         some (" | ".intercalate (sets.map (fun s => closureStr (closureGlyphs g (G16.ofList s)))))
     | _, _ => none
+  | "hl.collect", hex :: rest =>
+    -- three "|"-separated tag sets (scripts, languages, features): `<inverted 0/1> <tag…>`
+    match parseHex? hex, barLists rest (rest.length + 1) with
+    | some d, some [s, l, f] =>
+      let mk := fun (xs : List Nat) => match xs with
+        | inv :: ts => some (TagSet.mk (inv = 1) ts)
+        | [] => none
+      match mk s, mk l, mk f with
+      | some ss, some ls, some fs =>
+        (match gsubRead d with
+        | .error e => some (errStr e)
+        | .ok _ =>
+          match collectRead d with
+          | .error e => some (errStr e)
+          | .ok (ftags, recs) =>
+            match collectFeatures 0 ftags recs ss ls fs with
+            | .trap => some "trap"
+            | .val (.error e) => some (errStr e)
+            | .val (.ok out) => some s!"ok {joinStrs (out.map toString)}")
+      | _, _, _ => none
+    | _, _ => none
+  | "hl.lookup", [hex] =>
+    match parseHex? hex with
+    | none => none
+    | some d =>
+      match lookupAt d 0 with
+      | .error e => some (errStr e)
+      | .ok (.error e) => some s!"S:{errStr e}"
+      | .ok (.ok subs) =>
+        let tag := fun (s : PR Sub) => match s with
+          | .error e => errStr e
+          | .ok (.single1 _ _) => "s1"
+          | .ok (.single2 _ _) => "s2"
+          | .ok (.multiple _ _) => "m"
+          | .ok (.ligature _ _) => "l"
+          | .ok (.reverse _ _ _) => "r"
+          | .ok (.ctx1 _ _) => "c1"
+          | .ok (.ctx2 _ _ _) => "c2"
+          | .ok (.ctx3 _ _ _) => "c3"
+        some s!"{subs.length} {joinStrs (subs.map tag)} | {errStr (.badIndex subs.length)}"
   | "hl.slist", hex :: rest =>
     -- `rest` = tags for `index_for_tag` | tags for `select`
     match parseHex? hex with
